@@ -122,7 +122,7 @@ def main():
     rnd.shuffle(todo)
     if a.max:
         todo = todo[: a.max]
-    os.makedirs(os.path.dirname(a.out), exist_ok=True)
+    os.makedirs(os.path.dirname(os.path.abspath(a.out)), exist_ok=True)
     findings = json.load(open(os.path.join(HERE, "known_findings.json")))["findings"]
     open_pats = [re.compile(f["obligation"]) for f in findings if f.get("status") == "open" and "obligation" in f]
     counts = {}
